@@ -21,6 +21,7 @@ def wigm_configs(tier):
     cfgs = [
         (FX2, 6), ({'arithmetic': 'integer'}, 6), (dict(FX2, integer_quota=True), 6), (dict(FX2, defeat_batch='zero'), 6),
         (G44, 5), (dict(RAT), None),
+        (dict(FX2, display=0), 5),      # display digits below the working precision must not matter to the count
     ]
     if tier == 'thorough':
         cfgs += [({'arithmetic': 'fixed', 'precision': 4}, 6), ({}, 5), (dict(G44, integer_quota=True), 5),
@@ -33,6 +34,7 @@ def meek_configs(tier):
     cfgs = [
         ('meek', {'arithmetic': 'fixed', 'precision': 3, 'omega': 2}, 6), ('warren', {'arithmetic': 'fixed', 'precision': 3, 'omega': 2}, 6),
         ('meek', dict(G44), 5), ('meek', {'arithmetic': 'fixed', 'precision': 3, 'omega': 2, 'defeat_batch': 'none'}, 5),
+        ('warren', {'arithmetic': 'fixed', 'precision': 3, 'omega': 2, 'display': 1}, 5),
     ]
     if tier == 'thorough':
         cfgs += [('warren', dict(G44), 5), ('meek', {'arithmetic': 'fixed', 'precision': 2, 'omega': 1}, 6),
